@@ -683,6 +683,9 @@ func main() {
 				if strings.HasPrefix(rr.panicMsg, "DEADLOCK") {
 					kind = "deadlock"
 				}
+				if strings.HasPrefix(rr.panicMsg, "ORACLE") {
+					kind = "wrong-answer-count"
+				}
 			}
 			path := filepath.Join(verifDir, "replays", fmt.Sprintf("%s-%s-race-%d.json", prop, kind, rr.index))
 			jb, _ := json.MarshalIndent(map[string]any{"property": prop, "kind": kind, "mode": "race", "verif_seed": int64(seed), "race_index": rr.index, "detail": rr.sig, "report": strings.Split(rr.report, "\n")}, "", " ")
